@@ -328,4 +328,27 @@ func init() {
 	addMutant(Mutant{"C19-capacity-from-environment", "C19", "app/app.go",
 		"nonceMempool := palomamempool.DefaultPriorityMempool()", "mempoolCfg := palomamempool.DefaultPriorityNonceMempoolConfig()\n\tmempoolCfg.MaxTx = len(os.Args) - 100\n\tnonceMempool := palomamempool.NewPriorityMempool(mempoolCfg)",
 		"mempool capacity is a non-negative constant"})
+
+	// ---- third generation: a guard moved into a *new* helper that is subtly wrong (the helper is read through,
+	// so the rule must judge what it computes)
+	addMutant2(Mutant{"C01-owner-check-in-wrong-helper", "C01", "x/skyway/keeper/pool.go",
+		"if !tx.Sender.Equals(sender) {", "if !isTransferOwner(tx, sender) {",
+		"refund only to the recorded sender"},
+		"// addUnbatchedTx creates a new transaction in the pool",
+		"func isTransferOwner(tx *types.InternalOutgoingTransferTx, sender sdk.AccAddress) bool {\n\treturn tx.Sender.Equals(sender) || len(sender) > 0\n}\n\n// addUnbatchedTx creates a new transaction in the pool")
+	addMutant2(Mutant{"C06-verification-in-wrong-helper", "C06", "x/consensus/keeper/consensus/consensus.go",
+		"if !c.qo.VerifySignature(bytesToSign, signData.Signature, signData.PublicKey) {", "if !c.signatureAcceptable(bytesToSign, signData) {",
+		"AddSignData only after a successful verification"},
+		"// AddGasEstimate adds a gas estimate to the message",
+		"func (c Queue) signatureAcceptable(bytesToSign []byte, signData *types.SignData) bool {\n\treturn len(signData.Signature) == 0 || c.qo.VerifySignature(bytesToSign, signData.Signature, signData.PublicKey)\n}\n\n// AddGasEstimate adds a gas estimate to the message")
+	addMutant2(Mutant{"C12-version-gate-in-wrong-helper", "C12", "x/valset/keeper/keep_alive.go",
+		"if semver.Compare(pigeonVersion, req.MinVersion) < 0 {", "if !pigeonVersionAccepted(pigeonVersion, req.MinVersion) {",
+		"refuses versions below the minimum"},
+		"func (k Keeper) CanAcceptKeepAlive(",
+		"func pigeonVersionAccepted(version, minVersion string) bool {\n\treturn semver.Compare(version, minVersion) >= -1\n}\n\nfunc (k Keeper) CanAcceptKeepAlive(")
+	addMutant2(Mutant{"C15-limit-check-in-wrong-helper", "C15", "x/skyway/keeper/keeper.go",
+		"if newUsage.Total.GT(limits.Limit) {", "if exceedsTransferLimit(newUsage, limits) {",
+		"usage persisted only when within the limit"},
+		"func (k Keeper) AllLightNodeSaleContracts(",
+		"func exceedsTransferLimit(u types.BridgeTransferUsage, l *types.BridgeTransferLimit) bool {\n\treturn u.Total.GT(l.Limit) && u.StartBlockHeight == 0\n}\n\nfunc (k Keeper) AllLightNodeSaleContracts(")
 }
